@@ -25,11 +25,15 @@ from ._c19_lib import (
     denotes_kind_selector,
     denotes_project_group,
     is_materialisation,
+    stored_before,
     is_project_group,
     node_exprs,
     reader_units,
     root_names,
+    record_root,
+    stores_of,
     strip_view,
+    substitutes,
     tainted_names,
 )
 
@@ -78,6 +82,23 @@ def _reach_when_none(fn_node, names, avoid=lambda n: False):
     return g, seen
 
 
+def _flow_facts(g, al) -> dict:
+    """CFG node -> facts that hold before it on every path: membership / equality tests passed (alias-expanded), items the
+    function stored into its own dictionaries; a fact dies when a name it mentions is rebound."""
+    def transfer(node, st):
+        killed = bound_by(node)
+        if killed:
+            st = frozenset(f for f in st if not (f[3] & killed))
+        if node.kind in ("test", "assert") and node.ast is not None:
+            t = al.x(node.ast)
+            return {"true": st | frozenset(facts_of(t, True)), "false": st | frozenset(facts_of(t, False)), None: st}
+        if node.kind == "stmt" and node.ast is not None:
+            st = st | frozenset(("stored", k, nm, frozenset([nm])) for nm, k in stores_of(node.ast) if nm not in killed)
+        return st
+
+    return forward(g, frozenset(), transfer, lambda a, b: a & b)
+
+
 def rule_guard(ctx) -> RuleResult:
     res = RuleResult(
         "C19.GUARD",
@@ -98,16 +119,7 @@ def rule_guard(ctx) -> RuleResult:
         in_try = guarded_ids(fn.node)
         g = CFG(fn.node)
 
-        def transfer(node, st, al=al):
-            killed = bound_by(node)
-            if killed:
-                st = frozenset(f for f in st if not (f[3] & killed))
-            if node.kind in ("test", "assert") and node.ast is not None:
-                t = al.x(node.ast)
-                return {"true": st | frozenset(facts_of(t, True)), "false": st | frozenset(facts_of(t, False)), None: st}
-            return st
-
-        IN = forward(g, frozenset(), transfer, lambda a, b: a & b)
+        IN = _flow_facts(g, al)
         for node in g.nodes:
             subs = [(e, x) for e in node_exprs(node) for x in ast.walk(e) if isinstance(x, ast.Subscript)]
             for host, x in subs:
@@ -115,6 +127,8 @@ def rule_guard(ctx) -> RuleResult:
                     continue
                 if is_materialisation(x):
                     continue  # materialisation of a dataset that was already reached
+                if isinstance(x.value, ast.Name) and ("stored", unparse(x.slice), x.value.id, frozenset([x.value.id])) in IN.get(node, frozenset()):
+                    continue  # an item the function itself put into its own copy, on every path to here
                 key, base = unparse(x.slice), unparse(x.value)
                 where = f"{fn.module.relpath}:{x.lineno}"
                 if id(x) in in_try or by_callers:
@@ -212,6 +226,7 @@ def rule_scope(ctx) -> RuleResult:
         if not tainted:
             continue
         al = Alias(fn.node)
+        stored = stored_before(fn.node)
         seen_loops = set()
         regions = guard_regions(fn.node)
         if by_callers:
@@ -258,7 +273,7 @@ def rule_scope(ctx) -> RuleResult:
                 for x in body_nodes:
                     if not (isinstance(x, ast.Subscript) and isinstance(x.ctx, ast.Load) and handle_expr(x.value, tainted)):
                         continue
-                    if is_materialisation(x):
+                    if is_materialisation(x) or id(x) in stored:
                         continue
                     n_sub += 1
                     xe = al.x(x)
@@ -281,16 +296,8 @@ def _terminates(stmts) -> bool:
     return bool(stmts) and isinstance(stmts[-1], (ast.Return, ast.Raise, ast.Continue, ast.Break))
 
 
-def rule_load(ctx, rule_id="C19.LOAD", prop="C19") -> RuleResult:
-    res = RuleResult(
-        rule_id,
-        prop,
-        "the load path (Workspace.open and every Workspace method it reaches through self.<method>) makes no "
-        "persisting call: no save_entity / update_attribute / H5Writer call, and entities it constructs are created "
-        "with save_on_creation=False; constructors (which also run while loading) assign type attributes only "
-        "conditionally — opening a file (also one that lacks the Root link) needs no write access and writes nothing",
-        floor=5,
-    )
+def _load_path(ctx):
+    """({method name: normalised FuncInfo} of Workspace.open and the Workspace methods it reaches, receivers(fn), constructor names)"""
     p = ctx.p
     W = p.cls("Workspace")
     start = W.methods.get("open")
@@ -318,6 +325,21 @@ def rule_load(ctx, rule_id="C19.LOAD", prop="C19") -> RuleResult:
                 m = W.lookup(c.attr)
                 if m and m[1] == "method" and c.attr not in SKIP:
                     work.append(m[2])
+    return seen, receivers, CONSTRUCTORS
+
+
+def rule_load(ctx, rule_id="C19.LOAD", prop="C19") -> RuleResult:
+    res = RuleResult(
+        rule_id,
+        prop,
+        "the load path (Workspace.open and every Workspace method it reaches through self.<method>) makes no "
+        "persisting call: no save_entity / update_attribute / H5Writer call, and entities it constructs are created "
+        "with save_on_creation=False; constructors (which also run while loading) assign type attributes only "
+        "conditionally — opening a file (also one that lacks the Root link) needs no write access and writes nothing",
+        floor=5,
+    )
+    p = ctx.p
+    seen, receivers, CONSTRUCTORS = _load_path(ctx)
     for nm, fn in sorted(seen.items()):
         recv = receivers(fn)
         al = Alias(fn.node)
@@ -456,4 +478,73 @@ def rule_rebuild(ctx) -> RuleResult:
     return res
 
 
-RULES = [rule_guard, rule_scope, rule_load, rule_rebuild]
+def rule_default(ctx) -> RuleResult:
+    res = RuleResult(
+        "C19.DEFAULT",
+        "C19",
+        "a record read from the file (on the load path of Workspace: what self._io_call(H5Reader.<fetch>) returns; in H5Reader: "
+        "a node, its attribute set or a copy of them) is never completed with a LITERAL value for an item the file lacks — no "
+        "setdefault(key, literal), no `if key not in record: record[key] = literal`, no literal dictionary merged under the "
+        "record: a missing optional attribute leaves the default of the class in place instead of steering the reader "
+        "down another path",
+        floor=5,
+    )
+    seen, _receivers, _ = _load_path(ctx)
+
+    def io_read(e, al) -> bool:
+        return isinstance(e, ast.Call) and _func_name(e) == "_io_call" and bool(e.args) and al.text(e.args[0]).startswith("H5Reader")
+
+    def check(owner, name, fn, is_record_of):
+        al = Alias(fn.node)
+        g = CFG(fn.node)
+        IN = _flow_facts(g, al)
+        stmt_facts = [(n.ast, IN.get(n, frozenset())) for n in g.nodes if n.kind == "stmt" and n.ast is not None]
+        subs = substitutes(fn.node, is_record_of(al), al, stmt_facts)
+        res.inst(f"{owner}.{name}: no literal substitute for an item missing from a record of the file", nontrivial=True, ok=not subs)
+        for n, what in subs:
+            res.find(owner, name, f"literal substitute for a missing item: {what}", f"{fn.module.relpath}:{n.lineno}",
+                     f"{what}: when the file lacks this (optional) item the reader does not fall back on the default of the class but on this "
+                     "literal — entities that the missing item does not describe are then read differently (e.g. a project without 'Version' "
+                     "read down the 1.x path)")
+
+    for nm, fn in sorted(seen.items()):
+        al0 = Alias(fn.node)
+        recs = set(bound_from(fn.node, lambda e, al0=al0: any(io_read(c, al0) for c in ast.walk(e))))
+        # what is drawn from a record is part of it: unpacked fields, items iterated
+        changed = True
+        while changed:
+            changed = False
+            for n in ast.walk(fn.node):
+                src, tgt = None, None
+                if isinstance(n, ast.Assign) and isinstance(n.targets[0], (ast.Tuple, ast.List)):
+                    src, tgt = n.value, n.targets[0]
+                elif isinstance(n, (ast.For, ast.comprehension)):
+                    src, tgt = n.iter, n.target
+                if src is None:
+                    continue
+                r = record_root(strip_view(src.func.value if isinstance(src, ast.Call) and isinstance(src.func, ast.Attribute) and src.func.attr in ("items", "values") else src))
+                if (isinstance(r, ast.Name) and r.id in recs) or io_read(r, al0):
+                    for t in ast.walk(tgt):
+                        if isinstance(t, ast.Name) and t.id not in recs:
+                            recs.add(t.id)
+                            changed = True
+
+        def is_record_of(al, recs=recs):
+            def is_record(e):
+                for cand in (e, al.x(e)):
+                    r = record_root(cand)
+                    if (isinstance(r, ast.Name) and r.id in recs) or io_read(r, al):
+                        return True
+                return False
+            return is_record
+
+        check("Workspace", nm, fn, is_record_of)
+    for name, fn, _by, handles, _roles in reader_units(ctx):
+        tainted = tainted_names(fn, handles)
+        if not tainted:
+            continue
+        check("H5Reader", name, fn, lambda al, tainted=tainted: (lambda e: handle_expr(e, tainted)))
+    return res
+
+
+RULES = [rule_guard, rule_scope, rule_load, rule_rebuild, rule_default]
